@@ -449,9 +449,7 @@ def job_annexg(clause):
         r = p.result
         results.append(discharge(Obligation('csqrt Annex G clause %s (path %s)' % (clause, ''.join('T' if d else 'F' for d in p.decisions)), expect(r.real, r.imag), [pre] + p.pc,
                                             with_axioms=False, with_dens=False, replay=rp, key='annexg:csqrt:%s' % clause, timeout_ms=solve.qtimeout(60, 300), info={'sort': 'Float64'})))
-    so = z3.Solver()
-    so.add(pre)
-    results.append({'name': 'Annex G %s [reachability twin]' % clause, 'key': 'twin', 'twin': True, 'verdict': str(so.check()), 'solver_s': 0.0, 'info': {}})
+    results.append({'name': 'Annex G %s [reachability twin]' % clause, 'key': 'twin', 'twin': True, 'verdict': solve.sat_check([pre], 60000), 'solver_s': 0.0, 'info': {}})
     return {'results': results, 'encoded': loader.ENCODED, 'paths': len(paths), 'label': 'annexg ' + clause, 'axioms': ['QF_FP Float64 round-nearest-even execution of cf_csqrt / cf_hypot']}
 
 
